@@ -23,6 +23,7 @@ import sys
 PREFIX = '/simfs'
 
 _REAL_FILEIO = io.FileIO
+_REAL_TEXTIOWRAPPER = io.TextIOWrapper
 
 _real = {
     'open': builtins.open, 'stat': os.stat, 'lstat': os.lstat, 'scandir': os.scandir, 'listdir': os.listdir,
@@ -47,10 +48,10 @@ class _Node:
 class Fault:
     """One planned fault.  kind:
       eio_read      OSError(EIO) on read;      at = {'call': n} (n-th read call on a matching file) or {'byte': b}
-      eintr_read    InterruptedError on read   at = {'call': n}            (must be transparent)
+      eintr_read    a signal interrupts the n-th read: the raw layer retries (PEP 475), the caller sees a one-byte transfer
       enospc_write  OSError(ENOSPC) on write   at = {'byte': b}            (sticky: a full disk stays full)
       eio_write     OSError(EIO) on write      at = {'byte': b}, sticky or one-shot
-      eintr_write   InterruptedError on write  at = {'call': n}            (must be transparent)
+      eintr_write   the same for the n-th write
       open_error    OSError(errno) on open     errno name, at = {'call': n} n-th open of a matching path
       mkdir_error   OSError(EACCES) on mkdir
     ``path`` restricts the fault to one absolute simulated path (None = any)."""
@@ -271,7 +272,7 @@ class SimFS:
             if encoding is None:
                 encoding = self.locale
                 self.bump('locale_default_encoding_used')
-            text = io.TextIOWrapper(buf, encoding, errors, newline, buffering == 1)
+            text = _REAL_TEXTIOWRAPPER(buf, encoding, errors, newline, buffering == 1)
             text.mode = mode
             return text
         p = self.resolve(file)
@@ -308,7 +309,7 @@ class SimFS:
             if encoding is None:
                 encoding = self.locale
                 self.bump('locale_default_encoding_used')
-            text = io.TextIOWrapper(buf, encoding, errors, newline, buffering == 1)
+            text = _REAL_TEXTIOWRAPPER(buf, encoding, errors, newline, buffering == 1)
             text.mode = mode
             return text
         except Exception:
@@ -589,6 +590,19 @@ class _FileIOMeta(type):
         return issubclass(sub, (_REAL_FILEIO, FakeRaw, _NoCloseRaw))
 
 
+def _make_textiowrapper(fs):
+    """io.TextIOWrapper while mounted: encoding None / 'locale' means the SIMULATED preferred encoding."""
+    class SimTextIOWrapper(_REAL_TEXTIOWRAPPER):
+        def __init__(self, buffer, encoding=None, errors=None, newline=None, line_buffering=False, write_through=False):
+            if encoding is None or encoding == 'locale':
+                encoding = fs.locale
+                fs.bump('locale_default_encoding_used')
+            super().__init__(buffer, encoding, errors, newline, line_buffering, write_through)
+    SimTextIOWrapper.__name__ = 'TextIOWrapper'
+    SimTextIOWrapper.__qualname__ = 'TextIOWrapper'
+    return SimTextIOWrapper
+
+
 def _make_fileio(fs):
     """io.FileIO while mounted: the raw layer of the simulator for simulated paths / descriptors, the real class otherwise."""
     class SimFileIO(metaclass=_FileIOMeta):
@@ -622,6 +636,12 @@ class _Mount:
         builtins.open = fs.sim_open
         io.open = fs.sim_open
         io.FileIO = _make_fileio(fs)
+        io.TextIOWrapper = _make_textiowrapper(fs)
+        import locale as _locale
+        self._loc = (_locale.getpreferredencoding, getattr(_locale, 'getencoding', None))
+        _locale.getpreferredencoding = lambda do_setlocale=True: fs.locale
+        if self._loc[1] is not None:
+            _locale.getencoding = lambda: fs.locale
         os.stat, os.lstat = fs.sim_stat, fs.sim_lstat
         os.scandir, os.listdir = fs.sim_scandir, fs.sim_listdir
         os.mkdir, os.getcwd = fs.sim_mkdir, fs.sim_getcwd
@@ -635,6 +655,12 @@ class _Mount:
         builtins.open = _real['open']
         io.open = _real['open']
         io.FileIO = _REAL_FILEIO
+        io.TextIOWrapper = _REAL_TEXTIOWRAPPER
+        if getattr(self, '_loc', None):
+            import locale as _locale
+            _locale.getpreferredencoding = self._loc[0]
+            if self._loc[1] is not None:
+                _locale.getencoding = self._loc[1]
         os.stat, os.lstat = _real['stat'], _real['lstat']
         os.scandir, os.listdir = _real['scandir'], _real['listdir']
         os.mkdir, os.getcwd = _real['mkdir'], _real['getcwd']
@@ -828,15 +854,17 @@ class FakeRaw(io.RawIOBase):
         avail = len(self._node.data) - self._pos
         if avail <= 0 or len(mv) == 0:
             return 0
+        want = min(len(mv), avail)
+        n = self._n(want)
         f = fs._fault(('eintr_read',), self._path)
         if f is not None:
+            # PEP 475: a real raw file retries an interrupted system call itself and never shows EINTR to Python code;
+            # what the layers above can observe of a signal arriving mid-transfer is a partial (here: one byte) read
             f.fired += 1
             f.spent = True
             fs.bump('fault_eintr_read')
-            fs._emit('read', self._path, 'EINTR')
-            raise InterruptedError(errno.EINTR, os.strerror(errno.EINTR))
-        want = min(len(mv), avail)
-        n = self._n(want)
+            fs._emit('read', self._path, 'EINTR-retried')
+            n = 1
         f = fs._fault(('eio_read',), self._path, self._pos, self._pos + n)
         if f is not None:
             if 'byte' in f.at and not (f.sticky and f.fired) and f.at['byte'] > self._pos:
@@ -871,16 +899,16 @@ class FakeRaw(io.RawIOBase):
         mv = memoryview(b).cast('B')
         if len(mv) == 0:
             return 0
+        if self._append:
+            self._pos = len(self._node.data)
+        n = self._n(len(mv))
         f = fs._fault(('eintr_write',), self._path)
         if f is not None:
             f.fired += 1
             f.spent = True
             fs.bump('fault_eintr_write')
-            fs._emit('write', self._path, 'EINTR')
-            raise InterruptedError(errno.EINTR, os.strerror(errno.EINTR))
-        if self._append:
-            self._pos = len(self._node.data)
-        n = self._n(len(mv))
+            fs._emit('write', self._path, 'EINTR-retried')
+            n = 1             # partial write: the interrupted call had transferred one byte (see readinto)
         f = fs._fault(('enospc_write', 'eio_write'), self._path, self._pos, self._pos + n)
         if f is not None:
             if not (f.sticky and f.fired) and f.at.get('byte', -1) > self._pos:
